@@ -4,11 +4,11 @@ import DoitModel.Proofs.C08Conf9
     denotational closure `Dyn.DenCl` of the selection -/
 namespace DoitModel.Run.Dyn
 
-/-- the calc_deps of `n` according to the denotation: static ones and what executed / up-to-date ones deliver -/
+/-- the calc_deps of `n` according to the denotation: static ones and what their members deliver
+    (`delivOf`: executed / up-to-date ones `calcRes`, ones that failed during their execution `calcResFail`) -/
 inductive CalcR (inp : RunInput) (n : Name) : Name → Prop
   | static {c : Name} : c ∈ inp.calcDep n → CalcR inp n c
-  | deliv {c x : Name} {d : Den} : CalcR inp n c → DenOf inp c d → d.rs.good = true → x ∈ (inp.calcRes c).calcs →
-      CalcR inp n x
+  | deliv {c x : Name} {d : Den} : CalcR inp n c → DenOf inp c d → x ∈ (delivOf inp c d).calcs → CalcR inp n x
 
 /-- tasks a complete run processes: the selection, closed under task_dep, under calc_dep (static and delivered),
     under the task_deps / file_dep owners delivered by executed / up-to-date calc_deps, and under the setup-tasks of
@@ -17,8 +17,8 @@ inductive DenCl (inp : RunInput) : Name → Prop
   | ofSel {t : Name} : t ∈ inp.sel → DenCl inp t
   | ofTask {t d : Name} : DenCl inp t → d ∈ inp.taskDep t → DenCl inp d
   | ofCalc {t c : Name} : DenCl inp t → CalcR inp t c → DenCl inp c
-  | ofDeliv {t c x : Name} {d : Den} : DenCl inp t → CalcR inp t c → DenOf inp c d → d.rs.good = true →
-      (x ∈ (inp.calcRes c).tasks ∨ x ∈ (inp.calcRes c).files) → DenCl inp x
+  | ofDeliv {t c x : Name} {d : Den} : DenCl inp t → CalcR inp t c → DenOf inp c d →
+      (x ∈ (delivOf inp c d).tasks ∨ x ∈ (delivOf inp c d).files) → DenCl inp x
   | ofSetup {t d : Name} : DenCl inp t → R1 inp t → d ∈ inp.setup t → DenCl inp d
 
 theorem CalcS.toR {inp : RunInput} {s : Sys} {n c : Name} (hD : InvE inp s) (h : CalcS inp s n c) : CalcR inp n c := by
@@ -26,14 +26,14 @@ theorem CalcS.toR {inp : RunInput} {s : Sys} {n c : Name} (hD : InvE inp s) (h :
   | static hc => exact CalcR.static hc
   | deliv _ hg hm ih =>
     obtain ⟨d, hd, hrs⟩ := hD.fin _ (RS.good_finished hg)
-    exact CalcR.deliv ih hd (by rw [hrs]; exact hg) hm
+    exact CalcR.deliv ih hd (by rw [delivOf_good (by rw [hrs]; exact hg)]; exact hm)
 
 theorem TaskS.toCl {inp : RunInput} {s : Sys} {n x : Name} (hD : InvE inp s) (hcl : DenCl inp n)
     (h : TaskS inp s n x) : DenCl inp x := by
   rcases h with a | ⟨c, hc, hg, hm⟩
   · exact DenCl.ofTask hcl a
   · obtain ⟨d, hd, hrs⟩ := hD.fin _ (RS.good_finished hg)
-    exact DenCl.ofDeliv hcl (hc.toR hD) hd (by rw [hrs]; exact hg) hm
+    exact DenCl.ofDeliv hcl (hc.toR hD) hd (by rw [delivOf_good (by rw [hrs]; exact hg)]; exact hm)
 
 /-- what the `for` loop a generator is in will still visit -/
 def pcC (inp : RunInput) (n : Name) : PC → Prop
